@@ -126,10 +126,10 @@ TSigint == /\ Ev.e = "Sigint" /\ sigint' = TRUE
            /\ nc' = (nc \/ phase[1] # "running")
 TShutdownCall == /\ Ev.e = "ShutdownCall" /\ shut' = "called"
                  /\ UNCHANGED <<phase, guard, pst, starts, endhow, cleanleft, adoptret, sigint, result, xst, h, where, xobs, segopen, marks>>
-                 /\ nc' = (nc \/ phase[1] # "running")
-TShutdownRet == /\ Ev.e = "ShutdownRet" /\ shut' = IF Ev.ok THEN "returned" ELSE "raised"
+                 /\ nc' = (nc \/ phase[1] \in {"idle", "starting"})
+TShutdownRet == /\ Ev.e = "ShutdownRet" /\ shut' = IF Ev.ok /\ shut # "raised" THEN "returned" ELSE "raised"
                 /\ UNCHANGED <<phase, guard, pst, starts, endhow, cleanleft, adoptret, sigint, result, xst, h, where, xobs, segopen, marks>>
-                /\ nc' = (nc \/ shut # "called")
+                /\ nc' = (nc \/ shut \notin {"called", "returned"})
 TExecCall == /\ Ev.e = "ExecCall" /\ xst' = [xst EXCEPT ![Ev.x] = "called"]
              /\ UNCHANGED <<phase, guard, pst, starts, endhow, cleanleft, adoptret, sigint, shut, result, h, where, xobs, segopen, marks>>
              /\ nc' = (nc \/ ~ExecCall(Ev.x))
